@@ -3,6 +3,7 @@ package plugin
 import (
 	"fmt"
 	"math/rand"
+	"sort"
 	"strconv"
 	"strings"
 
@@ -27,21 +28,21 @@ func DefaultParams() GenParams {
 		Identities: 6, SyncAfter: 0.65}
 }
 
-var subnetPalette = []Subnet{{0x0a090100, 24}, {0x0a090200, 24}, {0x0a090300, 26}}
+var subnetPalette = []Subnet{{0x0a090100, 24}, {0x0a090200, 24}, {0x0a090300, 26}, {0x0a090407, 32}}
 
-var nodePalette = []Node{{"n1", 0x0a090105}, {"n2", 0x0a090205}, {"n3", 0x0a090305}, {"n4", 0x0a080004}, {"n5", 0x0a090106}}
+var nodePalette = []Node{{"n1", 0x0a090105}, {"n2", 0x0a090205}, {"n3", 0x0a090305}, {"n4", 0x0a080004}, {"n5", 0x0a090106},
+	{"n6", 0x0a090407}}
 
-// genPool makes pool number i: gateway 10.(10+i).0.1/24, 1-3 small non-adjacent ranges.
-func genPool(rng *rand.Rand, i int, maxIPs int) Pool {
-	base := uint32(0x0a000000) | uint32(10+i)<<16
-	p := Pool{Gateway: base | 1, Bits: 24, Vlan: []int{0, 0, 2, 3}[rng.Intn(4)]}
+// genPoolAt makes a pool inside the pod subnet base/24 with the given gateway: 1-3 small non-adjacent ranges starting
+// at host offset `next`; it returns the offset behind its last range.
+func genPoolAt(rng *rand.Rand, base, gw uint32, next uint32, maxIPs int) (Pool, uint32) {
+	p := Pool{Gateway: gw, Bits: 24, Vlan: []int{0, 0, 2, 3}[rng.Intn(4)]}
 	n := 1 + rng.Intn(3)
 	for j, k := range rng.Perm(len(subnetPalette)) {
 		if j < n {
 			p.NodeSubnets = append(p.NodeSubnets, subnetPalette[k])
 		}
 	}
-	next := uint32(2)
 	left := maxIPs
 	for r := 0; r < 1+rng.Intn(3) && left > 0; r++ {
 		sz := 1 + rng.Intn(3)
@@ -50,21 +51,50 @@ func genPool(rng *rand.Rand, i int, maxIPs int) Pool {
 		}
 		first := base | next
 		p.Ranges = append(p.Ranges, [2]uint32{first, first + uint32(sz) - 1})
-		next += uint32(sz) + 1 + uint32(rng.Intn(2)) // gap >= 1 address: ranges must not be mergeable
+		next += uint32(sz) + 1 + uint32(rng.Intn(2)) // gap >= 1 address: ranges of ONE pool must not be mergeable
 		left -= sz
 	}
+	return p, next
+}
+
+// genPool makes pool number i: gateway 10.(10+i).0.1/24, 1-3 small non-adjacent ranges.
+func genPool(rng *rand.Rand, i int, maxIPs int) Pool {
+	base := uint32(0x0a000000) | uint32(10+i)<<16
+	p, _ := genPoolAt(rng, base, base|1, 2, maxIPs)
 	return p
 }
 
-// GenConf generates a valid configuration: 1-3 pools with distinct gateways, node subnets from a palette (shared,
-// disjoint and /26 cases occur), 4-5 nodes one of which is in no configured subnet.
+// GenConf generates a valid configuration: 1-4 pools; a pool either opens a new pod subnet or SHARES the pod subnet
+// of its predecessor with disjoint (possibly adjacent) ranges and an equal or a distinct gateway (like the two
+// 10.180.154.0/24 pools of the repository's test configuration); node subnets from a palette (shared by several
+// pools, disjoint, /26 and /32 cases occur); 4-6 nodes one of which is in no configured subnet; the configuration
+// text need not be sorted by gateway.
 func GenConf(rng *rand.Rand, p GenParams) Conf {
-	c := Conf{Nodes: nodePalette[:4+rng.Intn(2)], Provider: rng.Intn(100) < p.ProviderPct}
+	c := Conf{Nodes: nodePalette[:4+rng.Intn(3)], Provider: rng.Intn(100) < p.ProviderPct}
 	n := 1 + rng.Intn(3)
-	for i := 0; i < n; i++ {
-		c.Pools = append(c.Pools, genPool(rng, i, 1+rng.Intn(4)))
+	if rng.Intn(100) < 35 {
+		n++
 	}
-	if rng.Intn(2) == 0 { // configuration text need not be sorted by gateway
+	var base, next uint32
+	sub := 0
+	for i := 0; i < n; i++ {
+		share := i > 0 && rng.Intn(100) < 45 && next < 200
+		if !share {
+			base = uint32(0x0a000000) | uint32(10+sub)<<16
+			sub++
+			next = 2
+		} else if rng.Intn(2) == 0 {
+			next-- // adjacent to the last range of the pool before (allowed across pools)
+		}
+		gw := base | 1
+		if share && rng.Intn(2) == 0 {
+			gw = base | uint32(240+i)
+		}
+		var pl Pool
+		pl, next = genPoolAt(rng, base, gw, next, 1+rng.Intn(4))
+		c.Pools = append(c.Pools, pl)
+	}
+	if rng.Intn(2) == 0 {
 		rng.Shuffle(len(c.Pools), func(i, j int) { c.Pools[i], c.Pools[j] = c.Pools[j], c.Pools[i] })
 	}
 	return c
@@ -327,8 +357,28 @@ func (g *Gen) Next(w *World, step int) string {
 	})
 	add(1, func() string { return "syncips 0" })
 	add(1.5, func() string { return g.releaseLine(w, multiOK) })
-	add(0.7, func() string { return g.reloadLine(w) })
-	add(0.45, func() string { g.needSync = false; return "restart" })
+	// reload / restart more often while pods hold addresses: ConfigurePool must keep the records of every pool
+	liveBound := len(w.LiveBound()) > 0
+	rw, sw := 0.7, 0.45
+	if liveBound {
+		rw, sw = 1.8, 0.7
+	}
+	add(rw, func() string { return g.reloadLine(w) })
+	add(sw, func() string { g.needSync = false; return "restart" })
+	// the resync pass in two phases, anything may happen in between
+	add(0.9, func() string { return "resyncsnap" })
+	var snapIPs []uint32
+	for ip := range w.Snap {
+		snapIPs = append(snapIPs, ip)
+	}
+	sort.Slice(snapIPs, func(i, j int) bool { return snapIPs[i] < snapIPs[j] })
+	for _, ip := range snapIPs {
+		ip := ip
+		add(3.0/float64(len(w.Snap))+0.6, func() string {
+			f, pf := g.fault(w, multiOK)
+			return fmt.Sprintf("resyncrec %d %d %d", ip, f, pf)
+		})
+	}
 	add(1.2, func() string {
 		g.needSync = true
 		if rng.Intn(2) == 0 {
@@ -422,7 +472,10 @@ func (g *Gen) releaseLine(w *World, multiOK bool) string {
 func (g *Gen) reloadLine(w *World) string {
 	cur := w.Pools
 	var next []Pool
-	switch g.rng.Intn(4) {
+	switch []int{0, 4, 4, 1, 2, 2, 3}[g.rng.Intn(7)] {
+	case 4: // the same pools in another order: another text, ConfigurePool runs again and must keep everything
+		next = append([]Pool(nil), cur...)
+		g.rng.Shuffle(len(next), func(i, j int) { next[i], next[j] = next[j], next[i] })
 	case 0: // same text
 		next = cur
 	case 1: // grown: one more pool, or the initial configuration again
